@@ -111,6 +111,67 @@ class GuardMonitor(P.Monitor):
         return st
 
 
+class CheckGuardBody(P.Monitor):
+    """state 0: before guard.collector(); 1: took the Some arm; 2: compared.  BAD: RETURN in state 1"""
+    name = 'check_guard-body'
+
+    def __init__(self, fn):
+        # the local that receives guard.collector() and the locals holding its discriminant
+        self.res = None
+        for b in fn.blocks.values():
+            t = b.term
+            if t.kind == 'call' and P.callee_name(t).endswith('Guard::collector') and t.place is not None:
+                self.res = t.place.local
+        # places that hold the result: the local itself, copies of it, and fields of tuples built from it
+        # (`if let (Some(c), Some(x)) = (guard.collector(), ..)`)
+        holds = {(self.res, ())}
+        changed = True
+        while changed:
+            changed = False
+            for b in fn.blocks.values():
+                for s in b.stmts:
+                    if s.kind != 'assign' or s.place.proj:
+                        continue
+                    rv = s.rvalue
+                    if rv.kind == 'use' and rv.ops and rv.ops[0].place is not None and (rv.ops[0].place.local, tuple(x[:2] for x in rv.ops[0].place.proj)) in holds:
+                        new = (s.place.local, ())
+                    elif rv.kind == 'aggregate':
+                        new = None
+                        for i, (_fn, o) in enumerate(rv.extra or []):
+                            if o.place is not None and (o.place.local, tuple(x[:2] for x in o.place.proj)) in holds:
+                                new = (s.place.local, (('field', i),))
+                    else:
+                        new = None
+                    if new is not None and new not in holds:
+                        holds.add(new)
+                        changed = True
+        self.discr = set()
+        for b in fn.blocks.values():
+            for s in b.stmts:
+                if s.kind == 'assign' and s.rvalue.kind == 'discriminant' and not s.place.proj \
+                        and (s.rvalue.place.local, tuple(x[:2] for x in s.rvalue.place.proj)) in holds:
+                    self.discr.add(s.place.local)
+
+    def init(self, fn):
+        return 0
+
+    def step(self, fn, block, edge, st):
+        if edge.kind == 'unwind':
+            return None
+        t = block.term
+        if t.kind == 'switch' and t.discr.place is not None and t.discr.place.local in self.discr:
+            if (edge.kind == 'case' and edge.value == 1) or (edge.kind == 'otherwise' and 1 not in [c for c, _ in t.cases]):
+                return max(st, 1)
+        if t.kind == 'call' and P.callee_name(t).endswith('Collector::ptr_eq') and edge.kind == 'ret':
+            return 2
+        return st
+
+    def at_exit(self, fn, exit_kind, st):
+        if exit_kind == 'RETURN' and st == 1:
+            return P.BAD
+        return st
+
+
 def closure_fn(prog: P.Program, parent: M.Function, closure_ty: str) -> Optional[M.Function]:
     """the MIR body of the closure `{closure@file:l:c: l:c}` created in `parent` (matched through its span)"""
     m = re.match(r'\{closure@(.+?):(\d+):(\d+): (\d+):(\d+)\}', closure_ty)
@@ -295,6 +356,17 @@ def run(tier: str) -> int:
     has_ptr_eq = any(P.callee_name(b.term).endswith('Collector::ptr_eq') for b in cg.blocks.values())
     has_panic = any(P.is_panic_call(b.term) for b in cg.blocks.values())
     chk.obligation('check_guard compares collectors and panics on mismatch', 'holds' if (has_ptr_eq and has_panic) else 'violated', nontrivial=False)
+    # every path on which the guard HAS a collector (the Some arm of guard.collector()) must compare it before returning
+    rcg = P.run_monitor(cg, CheckGuardBody(cg), label='C09 check_guard: a protected guard is always compared')
+    chk.obligation('check_guard: no returning path takes the Some arm of guard.collector() without Collector::ptr_eq', 'unsat' if rcg.holds else 'sat')
+    if not rcg.holds:
+        p0 = native.run_program('c09', replay_program(['map::HashMap::get', 'map::HashMap::insert', 'map::HashMap::iter']), ['map::HashMap::get', 'map::HashMap::insert', 'map::HashMap::iter'])
+        rows = re.findall(r'method=(\S+) populated=(\S+) outcome=(\S+)', p0.stdout)
+        if any(o == 'returned' for _, _, o in rows):
+            chk.violation('check_guard-skips-comparison', 'check_guard can return without comparing a protected guard\'s collector with the map\'s:\n%s\nnative replay with a foreign guard: %s' % (P.describe_path(cg, rcg.path), rows),
+                          replay_program(['map::HashMap::get']), 'check_guard_body.rs')
+        else:
+            chk.inconclusive.append('check_guard has a returning path without ptr_eq for a protected guard, but natively every probed call with a foreign guard panicked: %s' % rows)
     failing = []
     for f in must:
         chk.encoded(f)
